@@ -275,31 +275,31 @@ class Atomic<U*> : public AtomicBase<U*> {
   }
 
   U* operator++() noexcept {
-    return _value++;
+    return ++_value;
   }
   U* operator++() volatile noexcept {
-    return _value++;
+    return ++_value;
   }
 
   U* operator++(int) noexcept {
-    return ++_value;
+    return _value++;
   }
   U* operator++(int) volatile noexcept {
-    return ++_value;
+    return _value++;
   }
 
   U* operator--() noexcept {
-    return _value--;
+    return --_value;
   }
   U* operator--() volatile noexcept {
-    return _value--;
+    return --_value;
   }
 
   U* operator--(int) noexcept {
-    return --_value;
+    return _value--;
   }
   U* operator--(int) volatile noexcept {
-    return --_value;
+    return _value--;
   }
 
   U* operator+=(std::ptrdiff_t arg) noexcept {
